@@ -30,6 +30,15 @@ CHECKS = {
         "DESIGN.md 6 C13",
         TRUST,
     ),
+    "C05": (
+        "TLC exhaustive check of MC_Consistency (grid operators vs exact derivatives of monomials, all cells, both ENO3 branch "
+        "combinations, negative controls); every case replayed into the real generators (exact-rational + compiled) against the "
+        "continuous derivative emitted by TLC; degree analysis of every captured stencil",
+        "Model checking of the operator algebra (finite, exhaustive) + conformance of the code to the continuous operators on the "
+        "same finite basis; the lift to all polynomials is linearity, the lift to smooth fields is Taylor (not decided).",
+        "DESIGN.md 6 C05",
+        TRUST,
+    ),
 }
 
 NOT_YET = "check not built yet in this round (see DESIGN.md 11 for the build order)"
